@@ -63,3 +63,17 @@ impl LuaIndex for LuaGlobalIndex {
         self.global_decl.clear();
     }
 }
+
+/// Entry counts of every map of this index (verification hook, add-only, off by default).
+#[cfg(feature = "verif")]
+impl LuaGlobalIndex {
+    pub fn verif_sizes(&self) -> Vec<(String, usize)> {
+        let p = "global";
+        let mut v: Vec<(String, usize)> = Vec::new();
+        let mut put = |name: &str, n: usize| v.push((format!("{p}.{name}"), n));
+        put("global_decl", self.global_decl.len());
+        put("global_decl.items", self.global_decl.values().map(|s| s.len()).sum());
+
+        v
+    }
+}
